@@ -510,6 +510,13 @@ def run_child(scenario_fn, watch, fault, bufsizes, name_seed, report_fd, exdev=F
             pass
         tracer.open_log(logpath)
         signal.signal(signal.SIGTERM, signal.SIG_DFL)  # whatever the harness process had installed
+        try:
+            # a producer that spins (a retry loop that never ends, with sleeps being no-ops here) must not
+            # outlive the check as an orphan: the kernel ends this child after 10 minutes of CPU time
+            import resource
+            resource.setrlimit(resource.RLIMIT_CPU, (600, 620))
+        except Exception:  # noqa: BLE001
+            pass
         install(tracer)
         try:
             info = scenario_fn(tracer) or {}
